@@ -481,7 +481,7 @@ def desugar_for_each(raw, originals, stats=None, owner=None):
 
 
 
-def splice_closure(raw, q, env_local, arg_ops, ret_target, ln=None):
+def splice_closure(raw, q, env_local, arg_ops, ret_target, ln=None, env_op=None):
     """append the body of closure `q` to `raw`: returns (entry block, local holding the returned value, prologue statements
     that bind the environment and the arguments).  `return` becomes `goto ret_target`."""
     blocks = raw["blocks"]
@@ -495,6 +495,8 @@ def splice_closure(raw, q, env_local, arg_ops, ret_target, ln=None):
     env_ty = q.raw["locals"][1]["ty"]
     by_value = not env_ty.startswith("&")
     env_rv = {"k": "use", "op": {"k": "move", "p": [env_local, []]}} if by_value else {"k": "ref", "mut": env_ty.startswith("&mut"), "p": [env_local, []]}
+    if env_op is not None:
+        env_rv = {"k": "use", "op": env_op}        # the caller already holds the environment in the form the body expects
     pro = [{"k": "assign", "l": ln, "lhs": [lb + 1, []], "rv": env_rv, "inl": q.id}]
     for i, a in enumerate(arg_ops):
         pro.append({"k": "assign", "l": ln, "lhs": [lb + 2 + i, []], "rv": {"k": "use", "op": a}, "inl": q.id})
@@ -750,6 +752,53 @@ def desugar_combinators(raw, originals, stats=None, owner=None):
     return changed
 
 
+
+def desugar_closure_calls(raw, originals, stats=None, owner=None):
+    """`let due = |s| ..; if due(state) {..}`: a direct call of a closure written in this body is the closure's body"""
+    changed = False
+    blocks = raw["blocks"]
+    for bi in range(len(blocks)):
+        t = blocks[bi]["term"]
+        if t["k"] != "call" or blocks[bi].get("cleanup") or t.get("target") is None:
+            continue
+        d, r = _fn_def(t)
+        if d not in ("std::ops::Fn::call", "std::ops::FnMut::call_mut", "std::ops::FnOnce::call_once") or len(t["args"]) != 2:
+            continue
+        q = originals.get(r)
+        if q is None or q.kind != "closure":
+            continue
+        # the closure must be one created in this very body (not a parameter / captured callback)
+        if not any(st["k"] == "assign" and st["rv"]["k"] == "agg" and st["rv"].get("kind") == "closure" and st["rv"].get("def") == q.id for b in blocks for st in b["stmts"]):
+            continue
+        if len(blocks) + len(q.raw["blocks"]) + 4 > MAX_BLOCKS:
+            continue
+        targ = t["args"][1]
+        arg_ops = None
+        if targ.get("k") in ("move", "copy") and not targ["p"][1]:
+            defs = [st for b in blocks for st in b["stmts"] if st["k"] == "assign" and st["lhs"] == [targ["p"][0], []]]
+            if len(defs) == 1 and defs[0]["rv"]["k"] == "agg" and defs[0]["rv"].get("kind") == "tuple":
+                arg_ops = list(defs[0]["rv"]["ops"])
+            else:
+                arg_ops = [{"k": "move", "p": [targ["p"][0], ["f:%d" % i]]} for i in range(q.arg_count - 1)]
+        elif targ.get("k") == "const" and q.arg_count == 1:
+            arg_ops = []
+        if arg_ops is None or len(arg_ops) != q.arg_count - 1:
+            continue
+        ln = t.get("l")
+        RET = len(blocks)
+        blocks.append(None)
+        entry, lb, pro = splice_closure(raw, q, None, arg_ops, RET, ln, env_op=t["args"][0])
+        blocks[RET] = {"cleanup": False, "inl": q.id, "stmts": [{"k": "assign", "l": ln, "lhs": t["dest"], "rv": {"k": "use", "op": {"k": "move", "p": [lb, []]}}, "inl": q.id}],
+                       "term": {"l": ln, "k": "goto", "target": t["target"]}}
+        b = blocks[bi]
+        b["stmts"].extend(pro)
+        b["term"] = {"k": "goto", "target": entry, "l": ln, "inl_call": q.id}
+        changed = True
+        if stats is not None:
+            stats.append((owner or raw.get("id"), q.id))
+    return changed
+
+
 def inline_body(db, f, originals, stats=None, mode="cons"):
     """returns a new raw dict for f with inlinable local calls spliced in, or None if nothing was inlined"""
     raw = None
@@ -764,6 +813,13 @@ def inline_body(db, f, originals, stats=None, mode="cons"):
                 if raw is None:
                     raw = copy.deepcopy(f.raw)
                 if desugar_combinators(raw, originals, stats, f.id):
+                    changed = True
+        if not os.environ.get("VERIF_NO_CLOSURE_CALLS"):
+            src1 = raw if raw is not None else f.raw
+            if any(b["term"]["k"] == "call" and _fn_def(b["term"])[0] in ("std::ops::Fn::call", "std::ops::FnMut::call_mut", "std::ops::FnOnce::call_once") and _fn_def(b["term"])[1] in originals for b in src1["blocks"]):
+                if raw is None:
+                    raw = copy.deepcopy(f.raw)
+                if desugar_closure_calls(raw, originals, stats, f.id):
                     changed = True
         if not os.environ.get("VERIF_NO_FOREACH"):
             has = any(b["term"]["k"] == "call" and _fn_def(b["term"])[0] == "std::iter::Iterator::for_each" for b in (raw if raw is not None else f.raw)["blocks"])
